@@ -821,14 +821,14 @@ theorem flush_fields (sh : Shared D L) :
 theorem tail_spec {sh : Shared D L} {st : St} {e' : Editor D L} {b : KB} (h : tail env sh st = .ok (e', b)) :
     e'.state = st ∧
     ((e'.shared = flush env sh ∧ b = sh.last ∧
-        (st = .entering → sh.last = .absorb → sh.com.len ≤ sh.options.autoCommitThreshold)) ∨
-     (st = .entering ∧ sh.last = .absorb ∧ sh.options.autoCommitThreshold < sh.com.len ∧ b = .commit ∧
+        (st = .entering ∨ st = .enteringSyllable → sh.last = .absorb → sh.com.len ≤ sh.options.autoCommitThreshold)) ∨
+     ((st = .entering ∨ st = .enteringSyllable) ∧ sh.last = .absorb ∧ sh.options.autoCommitThreshold < sh.com.len ∧ b = .commit ∧
         ∃ sh2, Shared.tryAutoCommit env sh = .ok sh2 ∧ e'.shared = flush env sh2)) := by
   unfold tail at h
-  by_cases hc : (st == .entering && sh.last == .absorb) = true
+  by_cases hc : ((st == .entering || st == .enteringSyllable) && sh.last == .absorb) = true
   · rw [if_pos hc] at h
-    simp only [Bool.and_eq_true] at hc
-    have hst : st = .entering := eq_of_beq hc.1
+    simp only [Bool.and_eq_true, Bool.or_eq_true] at hc
+    have hst : st = .entering ∨ st = .enteringSyllable := hc.1.imp eq_of_beq eq_of_beq
     have hl : sh.last = .absorb := eq_of_beq hc.2
     by_cases hlen : sh.com.len ≤ sh.options.autoCommitThreshold
     · rw [tryAutoCommit_noop env hlen] at h
@@ -854,7 +854,7 @@ theorem tail_spec {sh : Shared D L} {st : St} {e' : Editor D L} {b : KB} (h : ta
     injection h with h; injection h with h1 h2
     refine ⟨by rw [← h1], Or.inl ⟨by rw [← h1]; rfl, ?_, ?_⟩⟩
     · rw [← h2]; exact (flush_fields env sh).2.2.1
-    · intro h3 h4; rw [h3, h4] at hc; exact absurd rfl hc
+    · intro h3 h4; rw [h4] at hc; rcases h3 with h3 | h3 <;> rw [h3] at hc <;> exact absurd rfl hc
 
 theorem len_eq (c : CompEditor) : c.len = c.inner.symbols.length := rfl
 
